@@ -38,6 +38,7 @@ theorem CellState.ext' (a b : CellState α) (h1 : a.kind = b.kind) (h2 : a.pos =
 /-- every cell kind: `pos` setter on a fresh cell gives the fresh cell at the new position -/
 theorem step_fresh_pos (k : CellKind) (p p' : Pt α) (R θ : α) (hs : 0 < Circ.sqrt ((2 : ℕ) : α)) (hR : 0 ≤ R) :
     step (fresh k p R θ) (.setPos p') = fresh k p' R θ := by
+  show stepPos (fresh k p R θ) p' = fresh k p' R θ
   cases k
   · rfl
   · rfl
@@ -48,6 +49,22 @@ theorem step_fresh_pos (k : CellKind) (p p' : Pt α) (R θ : α) (hs : 0 < Circ.
       rw [l, l']; simp only [fresh, padd, psub]; ext <;> simp <;> ring
     · show padd (fresh .square p R θ).upper (psub p' (fresh .square p R θ).pos) = (fresh .square p' R θ).upper
       rw [u, u']; simp only [fresh, padd, psub]; ext <;> simp <;> ring
+
+theorem fresh_pos (k : CellKind) (p : Pt α) (R θ : α) : (fresh k p R θ).pos = p := by cases k <;> rfl
+
+/-- the `move_by_*` helpers are moves through the `pos` setter -/
+theorem step_fresh_moveBy (k : CellKind) (p d : Pt α) (R θ : α) (hs : 0 < Circ.sqrt ((2 : ℕ) : α)) (hR : 0 ≤ R) :
+    step (fresh k p R θ) (.moveBy d) = fresh k (padd p d) R θ := by
+  have h := step_fresh_pos k p (padd p d) R θ hs hR
+  show stepPos (fresh k p R θ) (padd (fresh k p R θ).pos d) = _
+  rw [fresh_pos]; exact h
+
+theorem step_fresh_movePolar (k : CellKind) (p : Pt α) (r a R θ : α) (hs : 0 < Circ.sqrt ((2 : ℕ) : α))
+    (hR : 0 ≤ R) :
+    step (fresh k p R θ) (.movePolar r a) = fresh k (padd p (smul r (Circ.cisRad a))) R θ := by
+  have h := step_fresh_pos k p (padd p (smul r (Circ.cisRad a))) R θ hs hR
+  show stepPos (fresh k p R θ) (padd (fresh k p R θ).pos (smul r (Circ.cisRad a))) = _
+  rw [fresh_pos]; exact h
 
 /-- every cell kind: `radius` setter on a fresh cell gives the fresh cell with the new radius
     (sector cells re-derived, square corners rescaled) -/
@@ -97,6 +114,12 @@ theorem run_fresh (k : CellKind) (hs : 0 < Circ.sqrt ((2 : ℕ) : α)) :
   | .setRot t :: ops, p, R, θ, hR, hok => by
     simp only [run, params, step_fresh_rot]
     exact run_fresh k hs ops p R t hR hok
+  | .moveBy d :: ops, p, R, θ, hR, hok => by
+    simp only [run, params, step_fresh_moveBy k p d R θ hs hR.le]
+    exact run_fresh k hs ops (padd p d) R θ hR hok
+  | .movePolar r a :: ops, p, R, θ, hR, hok => by
+    simp only [run, params, step_fresh_movePolar k p r a R θ hs hR.le]
+    exact run_fresh k hs ops _ R θ hR hok
 
 /-- the constructor `CellSquare(pos, side, rotation)` is the fresh square cell of radius `√2·side/2` -/
 theorem freshSquare_eq (p : Pt α) (side θ : α) (hs : 0 < Circ.sqrt ((2 : ℕ) : α)) :
@@ -115,7 +138,7 @@ theorem run_fields (st : CellState α) : ∀ (ops : List (CellOp α)),
   | op :: ops => by
     have ih := run_fields (step st op) ops
     cases op <;> cases hk : st.kind <;> simp only [run, params] <;>
-      (rw [ih.1, ih.2]; simp [step, hk])
+      (rw [ih.1, ih.2]; simp [step, stepPos, hk])
 end field
 
 end PyPhysim.C19
